@@ -459,6 +459,11 @@ def correspondence(ctx):
     res.disagreements.sort(key=lambda f: (len(f['input']['dsts']), len(f['input']['statuses'])))
     res.oracle_failures = res.oracle_failures[:40]
     res.disagreements = res.disagreements[:40]
+    # additional phase: C05 at system level (real BertE + mock host + real git, selection computed by the model)
+    from . import selectsys
+    ex = res.exhaustive
+    res.merge(selectsys.phase(ctx, PID))
+    res.exhaustive = ex
     return res
 
 
@@ -469,6 +474,9 @@ def search(ctx):
 
 def replay(ctx, payload):
     global USE_MODEL
+    if payload.get('failure', {}).get('input', {}).get('phase') == 'selectsys':
+        from . import selectsys
+        return selectsys.replay(ctx, PID, payload['failure']['input'])
     USE_MODEL = bool(ctx.model and ctx.model.available())
     acc = Acc()
     replay_input(payload['failure']['input'], acc, 'replay')
